@@ -38,20 +38,23 @@ type ezInner struct {
 
 type ezOuter struct {
 	*EzEmbBurst
-	Count int      `dials:"vfccount" dialsalias:"vfclegacycount"`
-	Mid   *ezInner `dials:"vfcmid" dialsalias:"vfcoldmid"`
+	Count int      `dials:"vfccount" dialsalias:"vfclegacycount" json:"vfccount,omitempty" yaml:"vfccount,omitempty" toml:"vfccount,omitempty"`
+	Mid   *ezInner `dials:"vfcmid" dialsalias:"vfcoldmid" json:"vfcmid" yaml:"vfcmid" toml:"vfcmid"`
 	Ratio float64  `dials:"vfcratio"`
 }
 
 type ezConfig struct {
 	EzEmbTint
 	Path  string              `dials:"vfcpath"`
-	Name  string              `dials:"vfcname" dialsalias:"vfcoldname"`
+	Name  string              `dials:"vfcname" dialsalias:"vfcoldname" json:"vfcname" yaml:"vfcname" toml:"vfcname"`
 	Outer ezOuter             `dials:"vfcouter" dialsalias:"vfcoldouter"`
 	Tags  map[string]struct{} `dials:"vfctags" dialsalias:"vfcoldtags"`
 	Plain ezInner             `dials:"vfcplain"`
 	Caps  map[string]string   `dials:"vfccaps" dialsalias:"vfcoldcaps"`
 	Items []EzItem            `dials:"vfcitems" dialsalias:"vfcolditems"`
+	// the only multi-word tags of the type: their spelling differs between the
+	// raw tag and every re-cased form
+	LimitMax int `dials:"vfcLimitMax" dialsalias:"vfcOldLimitMax"`
 }
 
 // ConfigPath implements ez.ConfigWithConfigPath.
@@ -76,9 +79,10 @@ type EzCase struct {
 	// UpperKeys is the older spelling of Encoder = "upper_snake".
 	UpperKeys bool `json:"upper_keys"`
 	// Encoder names Params.FileFieldNameEncoder: "" (nil), "upper_snake",
-	// "lower_snake" or "kebab".  Every dials tag of ezConfig is one lower-case
-	// word, so only upper_snake changes the tag keys; all three give untagged
-	// embedded structs a key built from the words of their type name.
+	// "lower_snake" or "kebab".  All but one of the dials tags of ezConfig are
+	// one lower-case word (only upper_snake changes those); LimitMax has
+	// camelCase tags, and untagged embedded structs get a key built from the
+	// words of their type name.
 	Encoder string `json:"encoder,omitempty"`
 	// NoSetSlice is Params.DisableAutoSetToSlice (sets are then written as
 	// maps of empty maps).
@@ -89,8 +93,14 @@ type EzCase struct {
 	// Entry selects the ez entry point: "" / "ext" FileExtensionDecoderConfigEnvFlag,
 	// "named" YAML/JSON/TOML/CueConfigEnvFlag, "factory" ConfigFileEnvFlag,
 	// "factoryparams" ConfigFileEnvFlagDecoderFactoryParams.
-	Entry  string            `json:"entry,omitempty"`
-	Supply map[string]uint64 `json:"supply"`
+	Entry string `json:"entry,omitempty"`
+	// InnerRecase ("" | lower_snake | upper_snake | kebab; only with the two
+	// factory entry points and no FileFieldNameEncoder): the decoder the
+	// factory returns is itself a sourcewrap.NewTransformingDecoder with a
+	// tag-reformatting mangler (DecodeGoTags -> that casing), around which ez
+	// then puts its alias wrapper.
+	InnerRecase string            `json:"inner_recase,omitempty"`
+	Supply      map[string]uint64 `json:"supply"`
 	// Elems gives the elements of the supplied Items leaf (per expanded key):
 	// each element maps expanded-leaf keys of EzItem to value seeds.
 	Elems map[string][]map[string]uint64 `json:"elems,omitempty"`
@@ -101,6 +111,15 @@ func (c EzCase) encoder() string {
 		return "upper_snake"
 	}
 	return c.Encoder
+}
+
+// keyEncoder is the casing the keys of the file are in: ez's own encoder or
+// that of the factory's recasing decoder.
+func (c EzCase) keyEncoder() string {
+	if e := c.encoder(); e != "" {
+		return e
+	}
+	return c.InnerRecase
 }
 
 func (c EzCase) entry() string {
@@ -115,7 +134,7 @@ func ezModel(c EzCase) (*model, error) {
 	if err != nil {
 		return nil, err
 	}
-	m.keyEnc, m.flattenAnon = c.encoder(), c.FlattenAnonymous
+	m.keyEnc, m.flattenAnon, m.recaseAll = c.keyEncoder(), c.FlattenAnonymous, c.keyEncoder() != ""
 	return m, nil
 }
 
@@ -126,6 +145,9 @@ func genEz(t *rapid.T) EzCase {
 		NoSetSlice:       rapid.Bool().Draw(t, "disable_auto_set_to_slice"),
 		FlattenAnonymous: rapid.Bool().Draw(t, "flatten_anonymous"),
 		Entry:            rapid.SampledFrom([]string{"ext", "named", "factory", "factoryparams"}).Draw(t, "entry"),
+	}
+	if c.Encoder == "" && (c.Entry == "factory" || c.Entry == "factoryparams") {
+		c.InnerRecase = rapid.SampledFrom([]string{"", "lower_snake", "upper_snake", "kebab"}).Draw(t, "inner_recase")
 	}
 	m, err := ezModel(c)
 	if err != nil {
@@ -171,10 +193,12 @@ func ezCall(ctx context.Context, c EzCase, cfg *ezConfig, params ez.Params[ezCon
 			return ez.CueConfigEnvFlag(ctx, cfg, params)
 		}
 	case "factory":
-		return ez.ConfigFileEnvFlag(ctx, cfg, func(string) dials.Decoder { return ezDecoder(c.Decoder, c.FlattenAnonymous) }, params)
+		return ez.ConfigFileEnvFlag(ctx, cfg, func(string) dials.Decoder {
+			return recasingDecoder(ezDecoder(c.Decoder, c.FlattenAnonymous), c.InnerRecase)
+		}, params)
 	case "factoryparams":
 		return ez.ConfigFileEnvFlagDecoderFactoryParams(ctx, cfg, func(_ string, p ez.Params[ezConfig]) dials.Decoder {
-			return ezDecoder(c.Decoder, p.FlattenAnonymousFields)
+			return recasingDecoder(ezDecoder(c.Decoder, p.FlattenAnonymousFields), c.InnerRecase)
 		}, params)
 	}
 	return nil, fmt.Errorf("harness: unknown entry point %q", c.Entry)
@@ -202,6 +226,11 @@ func runEz(c EzCase) vrt.Verdict {
 	default:
 		return vrt.Discardf("unknown entry point")
 	}
+	if c.InnerRecase != "" {
+		if _, ok := recaseEncoders[c.InnerRecase]; !ok || c.encoder() != "" || (c.entry() != "factory" && c.entry() != "factoryparams") {
+			return vrt.Discardf("inner recasing decoder needs a factory entry point and no FileFieldNameEncoder")
+		}
+	}
 	m, err := ezModel(c)
 	if err != nil {
 		return vrt.Violationf("harness: %v", err)
@@ -222,13 +251,8 @@ func runEz(c EzCase) vrt.Verdict {
 			return vrt.Discardf("supply key is not an expanded leaf of the type")
 		}
 		path := append([]string{}, x.docPath...)
-		if c.encoder() == "upper_snake" {
-			for i := range path {
-				path[i] = strings.ToUpper(path[i])
-			}
-		}
 		if _, isElem := elemTypeOf(x.f.typ); isElem {
-			v, edoc, both, pats, err := m.elemLeaf(x.f, c.Elems[k], c.Decoder == "toml", c.NoSetSlice, c.encoder() == "upper_snake")
+			v, edoc, both, pats, err := m.elemLeaf(x.f, c.Elems[k], c.Decoder == "toml", c.NoSetSlice, false)
 			if err != nil {
 				return vrt.Discardf("malformed elements")
 			}
@@ -298,7 +322,7 @@ func runEz(c EzCase) vrt.Verdict {
 		defer func() { panicked = recover() }()
 		d, gerr = ezCall(ctx, c, &cfg, params)
 	}()
-	desc := fmt.Sprintf("entry %s, encoder %q, DisableAutoSetToSlice %v, FlattenAnonymousFields %v, %s file %q; supplied: %s", c.entry(), c.encoder(), c.NoSetSlice, c.FlattenAnonymous, c.Decoder, clip(doc, 500), strings.Join(parts, " "))
+	desc := fmt.Sprintf("entry %s, factory's recasing decoder %q, encoder %q, DisableAutoSetToSlice %v, FlattenAnonymousFields %v, %s file %q; supplied: %s", c.entry(), c.InnerRecase, c.encoder(), c.NoSetSlice, c.FlattenAnonymous, c.Decoder, clip(doc, 500), strings.Join(parts, " "))
 
 	if panicked != nil && elemSupplied && strings.Contains(fmt.Sprint(panicked), "reflect.Value.IsNil") {
 		return vrt.KeyedViolationf("alias-in-slice-element", "ez: an alias tag on a field of a struct held in a slice makes the alias-wrapped decoder panic once the slice has an element: %v; %s", panicked, desc)
@@ -341,6 +365,9 @@ func runEz(c EzCase) vrt.Verdict {
 	if c.NoSetSlice && c.encoder() == "" {
 		lab["alias-mangler-alone-in-chain"] = true
 	}
+	if c.InnerRecase != "" {
+		lab["factory-returns-recasing-decoder:"+c.InnerRecase] = true
+	}
 	if len(ev.both) > 0 {
 		lab["expect:error"] = true
 	} else {
@@ -379,8 +406,8 @@ func runEz(c EzCase) vrt.Verdict {
 func TestC14Ez(t *testing.T) {
 	vrt.Check(t, vrt.Prop[EzCase]{
 		ID: "C14", Name: "ez",
-		Rule: "fixed config type ezConfig (an embedded struct at the root and a pointer-embedded struct inside the aliased Outer struct, both with aliased leaves and no tag of their own; aliased string leaf, aliased struct holding an aliased int and an aliased pointer struct with aliased []string / int64 leaves, aliased string set, aliased string map, an unaliased struct with aliased leaves, and an aliased []EzItem whose element fields carry alias tags: 0..3 elements (1..3 in TOML), each with its own pattern per aliased element field and non-zero values, since inside an unpointerified element the zero value is 'not supplied'); per aliased field neither / primary / alias / both as in the other C14 checks; " +
-			"drawn independently: format json|yaml|toml|cue; ez entry point FileExtensionDecoderConfigEnvFlag | YAML/JSON/TOML/CueConfigEnvFlag | ConfigFileEnvFlag (decoder factory) | ConfigFileEnvFlagDecoderFactoryParams; Params.FileFieldNameEncoder nil (2/5) | UPPER_SNAKE | lower_snake | kebab; Params.DisableAutoSetToSlice on/off (on: the set is written as a map of empty maps; on + nil encoder: the alias mangler is the only mangler of the chain); Params.FlattenAnonymousFields on/off (YAML decoder only); " +
+		Rule: "fixed config type ezConfig (an embedded struct at the root and a pointer-embedded struct inside the aliased Outer struct, both with aliased leaves and no tag of their own; the aliased leaves Name and Outer.Count and the aliased pointer struct Outer.Mid also carry hand-written json / yaml / toml tags with the dials name (Count with ',omitempty'), which the alias copy must not inherit and which keep the original's key as written whatever the encoder; aliased string leaf, aliased struct holding an aliased int and an aliased pointer struct with aliased []string / int64 leaves, aliased string set, aliased string map, an unaliased struct with aliased leaves, and an aliased []EzItem whose element fields carry alias tags: 0..3 elements (1..3 in TOML), each with its own pattern per aliased element field and non-zero values, since inside an unpointerified element the zero value is 'not supplied'); per aliased field neither / primary / alias / both as in the other C14 checks; " +
+			"drawn independently: format json|yaml|toml|cue; ez entry point FileExtensionDecoderConfigEnvFlag | YAML/JSON/TOML/CueConfigEnvFlag | ConfigFileEnvFlag (decoder factory) | ConfigFileEnvFlagDecoderFactoryParams; Params.FileFieldNameEncoder nil (2/5) | UPPER_SNAKE | lower_snake | kebab; Params.DisableAutoSetToSlice on/off (on: the set is written as a map of empty maps; on + nil encoder: the alias mangler is the only mangler of the chain); Params.FlattenAnonymousFields on/off (YAML decoder only); with the two factory entry points and a nil encoder the factory's decoder is, in 3/4 of the cases, itself a sourcewrap transforming decoder that re-cases the dials tags (DecodeGoTags -> lower_snake | UPPER_SNAKE | kebab), so ez's alias wrapper goes around another transforming decoder and every key of the file, primary or alias, is in that convention; " +
 			"keys of the untagged embedded structs by construction: hoisted in YAML when FlattenAnonymousFields, else the encoder's join of the type-name words when an encoder is set, else promoted in JSON / Cue, lower-cased type name in YAML, type name in TOML; the file is written by the harness and read with an explicit, argument-less flag source; " +
 			"oracle: both => error whose innermost cause quotes the field and whose visible text carries that quoted name too (outside the parenthesised names of enclosing fields), else View() equals defaults + supplied leaves; non-trivial = >=2 aliased field instances at different depths with different patterns; distinct = distinct case JSON",
 		Assumptions: []string{
